@@ -179,6 +179,20 @@ func checkC15(c *Ctx) {
 			if !isCmp {
 				continue
 			}
+			if _, constFirst := stripConv(x).(*ssa.Const); constFirst {
+				// `MaxLength < Len()+n`: the same test written the other way round
+				x, y = y, x
+				switch op {
+				case token.LSS:
+					op = token.GTR
+				case token.GTR:
+					op = token.LSS
+				case token.LEQ:
+					op = token.GEQ
+				case token.GEQ:
+					op = token.LEQ
+				}
+			}
 			k, isK := stripConv(y).(*ssa.Const)
 			sum, isSum := stripConv(x).(*ssa.BinOp)
 			if !isK || !isSum || sum.Op != token.ADD || k.Value == nil {
